@@ -186,7 +186,10 @@ impl<'a> MirVisitor for Collector<'a> {
 impl Dump {
     fn stopped(&self, name: &str) -> Option<&StopRule> {
         let name = norm_name(name);
-        self.stop.iter().find(|r| glob(r.pat.as_bytes(), name.as_bytes()))
+        if self.stop.iter().any(|r| r.pat.starts_with('!') && glob(r.pat[1..].as_bytes(), name.as_bytes())) {
+            return None;
+        }
+        self.stop.iter().find(|r| !r.pat.starts_with('!') && glob(r.pat.as_bytes(), name.as_bytes()))
     }
 
     fn enqueue(&mut self, inst: Instance) -> usize {
